@@ -71,6 +71,14 @@ def pick(table, idx):
 _R5 = [0, 1, 2, 3, 4]
 
 
+class Message:
+    def __init__(self, text):
+        self.text = text
+
+    def __str__(self):
+        return self.text
+
+
 def make_T(log):
     """recording translation function whose return value exposes every argument it was given"""
     def T(msgid, domain=None, mapping=None, context=None, target_language=None, default=None):
@@ -210,7 +218,7 @@ KIND_N['cls_t'] = 3
 KIND_N['out3'] = 3
 OUT3 = [0, 7, 10]      # succeeds / ValueError / CustomExc
 HANDLER_CALLS = []
-BOOL_KINDS = ('bool', 'lbool', 'maybe', 'llist', 'lconst')
+BOOL_KINDS = ('bool', 'lbool', 'maybe', 'llist', 'lconst', 'msg')
 
 
 def _mutate(name):
@@ -468,6 +476,9 @@ def bind(ints, bools):
             continue
         if kind == 'obj2':
             b[name] = pick(OBJ2, ints[slot])
+            continue
+        if kind == 'msg':            # a message object: neither text, number nor __html__
+            b[name] = Message('M%s' % slot)
             continue
         if kind.startswith('iter:'):  # iterable of the given kind with symbolic length 0..3
             n = pick(_R5[:4], ints[slot])
